@@ -247,6 +247,27 @@ def model_check(prop, tier, seed, workdir):
                                 "all_parameterisations": exhaustive, "distinct_states": dist,
                                 "states_generated": gen, "wall_s": round(time.time() - start, 1),
                                 "coverage": {k: v[1] for k, v in tlc.coverage(out).items()} or None})
+    if prop == "C03":
+        # liveness proper: under weak fairness every admissible configuration terminates
+        fam, _, desc = families.family("never", tier, seed)
+        fam = fam[:60 if tier == "quick" else 600]
+        famf = os.path.join(workdir, "fam-live.json")
+        with open(famf, "w") as out:
+            json.dump(fam, out)
+        start = time.time()
+        rc, out = tlc.run("MC_Orch.tla", "MC_Orch_live.cfg", env={"FAMILY_FILE": famf},
+                          workers=16, scratch=workdir)
+        if tlc.violated(out) or "Temporal properties were violated" in out:
+            raise tlc.TlcFailure("the specification does not guarantee termination:\n" + out[-4000:])
+        if "Model checking completed" not in out:
+            raise tlc.TlcFailure("TLC failed on the liveness configuration:\n" + out[-3000:])
+        gen, dist = tlc.stats(out)
+        res["states"] += dist
+        res["transitions"] += gen
+        res["families"].append({"family": "never (liveness: <>Terminated under WF(Next))", "description": desc,
+                                "configurations": len(fam), "all_parameterisations": False,
+                                "distinct_states": dist, "states_generated": gen,
+                                "wall_s": round(time.time() - start, 1), "coverage": None})
     return res
 
 
@@ -678,3 +699,63 @@ def predict_all(traces, workdir):
             dist += d
             sizes += z
     return misses, gen, dist, sizes
+
+
+# ---------------------------------------------------------------- spec -> code: simulated behaviours
+SIM = re.compile(r'^"SIM\|(.*)"$')
+
+
+def simulate_scenarios(count, seed, workdir, family="nested"):
+    """behaviours generated by `tlc -simulate` on Orchestra (free mode), each turned
+    into a scripted scenario: the durations and outcomes the behaviour chose"""
+    import random
+    rng = random.Random("sim-%d" % seed)
+    fam, _, _ = families.family(family, "thorough", seed)
+    rng.shuffle(fam)
+    fam = fam[:400]
+    famf = os.path.join(workdir, "fam-sim.json")
+    with open(famf, "w") as out:
+        json.dump(fam, out)
+    rc, out = tlc.run("MC_Orch.tla", "MC_Orch_sim.cfg", env={"FAMILY_FILE": famf}, workers=1,
+                      scratch=workdir, timeout=900,
+                      extra=["-simulate", "num=%d" % count, "-depth", "120", "-seed", str(seed + 1)])
+    if tlc.violated(out):
+        raise tlc.TlcFailure("simulation found the specification violating a property:\n" + out[-3000:])
+    scen = []
+    seen = set()
+    for line in out.splitlines():
+        m = SIM.match(line)
+        if not m:
+            continue
+        rec = json.loads(m.group(1).replace('\\"', '"'))
+        c = rec["c"]
+        n = c["n"]
+        dur, outc = [], []
+        for i in range(n):
+            if c["kind"][i] == "sched":
+                dur.append(0)
+                outc.append("ok")
+            elif c["dur"][i] == -1:
+                dur.append(-1)
+                outc.append("ok")
+            elif rec["st"][i] in ("ok", "exc"):
+                dur.append(rec["te"][i] - rec["t0"][i])
+                outc.append(rec["st"][i])
+            elif rec["nstart"][i] > 0 and rec["tc"][i] >= 0:
+                dur.append(rec["tc"][i] - rec["t0"][i] + rng.choice([1, 1, 2]))
+                outc.append(rng.choice(["ok", "ok", "exc"]))
+            else:
+                dur.append(rng.choice([0, 1, 2]))
+                outc.append(rng.choice(["ok", "ok", "exc"]))
+        cfg = dict(c, dur=dur, out=outc, horizon=0)
+        key = json.dumps(cfg, sort_keys=True)
+        if key in seen:
+            continue
+        seen.add(key)
+        perm = list(range(1, n + 1))
+        rng.shuffle(perm)
+        scen.append({"sid": len(scen) + 1, "cfg": cfg, "snap": False,
+                     "harness": {"k": [rng.choice([0, 0, 1, 2]) for _ in range(n)], "hash": perm,
+                                 "flavour": [rng.choice(["abs", "job"]) for _ in range(n)],
+                                 "verbose": False, "prep": 0}})
+    return scen
